@@ -197,6 +197,8 @@ func (v *verifier) envForAt(fr *frame, st *State, upto token.Pos) *spec.Env {
 			continue
 		}
 		if _, isParam := env.Vars[o.Name()]; isParam && best[o.Name()] == 0 {
+			// a parameter name means the value passed in; cur(name) is its current value (parameters can be reassigned)
+			env.Vars["$cur."+o.Name()] = val.TV
 			continue
 		}
 		if upto != token.NoPos && o.Pos() > upto {
@@ -369,6 +371,13 @@ func (e *Engine) VerifyFunc(pkgPath, key string, modular bool) (rep *FuncReport,
 				}
 				v.obls[name].Finding = c.Finding
 				v.obls[name].Full = fmt.Sprintf("%s#ensures%d", base, c.Ord)
+			}
+		}
+		// cover clauses: a documented success must stay reachable - some normal exit is compatible with the condition
+		// (read in the pre-state). Refuted only if every exit is unsatisfiable together with it.
+		for _, c := range fs.Clauses {
+			if c.Kind == "cover" {
+				v.add(fmt.Sprintf("%s#cover%d", base, c.Ord), c.Tags, "cover "+c.Text, v.query(ex.St, []*sx.T{v.pre.Tr(c.E).T}, sx.Bool(false)))
 			}
 		}
 		if fs.Pure {
